@@ -547,10 +547,8 @@ func (c *Ctx) havocLoop(fr *frame, l *loopInfo, st *State) {
 	nclk := Fresh("clk", RefSort)
 	c.assume(st.pc, ULe(st.clk, nclk))
 	st.clk = nclk
-	if ms.writes && st.ghost != nil {
-		if g, ok := st.ghost["wlog"]; ok {
-			st.ghost["wlog"] = &Val{Typ: g.Typ, L: []*Term{Fresh("wlog", g.L[0].S), Fresh("wlen", BV(64))}}
-		}
+	if ms.writes || ms.opaque {
+		c.havocGhost(st)
 	}
 }
 
@@ -664,6 +662,11 @@ func (c *Ctx) applyContract(st *State, fc *FuncContract, fn *ssa.Function, args 
 		}
 		c.W.havocMutableGlobals(c, st)
 	}
+	if c.W.fnMayWrite(fn) {
+		// the callee may write to an io.Writer: the ghost byte log after the
+		// call is whatever the callee's postcondition says about it
+		c.havocGhost(st)
+	}
 	nclk := Fresh("clk", RefSort)
 	c.assume(st.pc, ULe(st.clk, nclk))
 	st.clk = nclk
@@ -677,10 +680,73 @@ func (c *Ctx) applyContract(st *State, fc *FuncContract, fn *ssa.Function, args 
 	saveClk0 := c.clk0
 	c.clk0 = old.clk // fresh() in the callee's postcondition refers to its own entry
 	for _, en := range fc.Ensures {
-		c.assume(st.pc, c.evalClause(post, en))
+		if t, ok := c.evalCalleeClause(post, en); ok {
+			c.assume(st.pc, t)
+		}
 	}
 	c.clk0 = saveClk0
 	return res
+}
+
+// evalCalleeClause evaluates a postcondition at a call site. A clause that
+// mentions local variables of the callee (visible only while the callee
+// itself is verified) cannot be stated at the call site: the caller simply
+// does not get that fact (fewer assumptions, still sound).
+func (c *Ctx) evalCalleeClause(e *Env, cl *Clause) (t *Term, ok bool) {
+	defer func() {
+		if r := recover(); r != nil {
+			if er, isErr := r.(error); isErr && strings.Contains(er.Error(), "unknown identifier") {
+				t, ok = nil, false
+				return
+			}
+			panic(r)
+		}
+	}()
+	return c.evalClause(e, cl), true
+}
+
+// fnMayWrite: the function (or something it calls) may call Write on an
+// interface value, or calls code the scan cannot see.
+func (w *World) fnMayWrite(fn *ssa.Function) bool {
+	if fn == nil || fn.Blocks == nil {
+		return true
+	}
+	if v, ok := w.mayWrite[fn]; ok {
+		return v
+	}
+	ms := &modSet{}
+	seen := map[*ssa.Function]bool{fn: true}
+	w.scanBlocks(fn.Blocks, ms, seen, 0)
+	for _, anon := range fn.AnonFuncs {
+		if !seen[anon] {
+			seen[anon] = true
+			w.scanBlocks(anon.Blocks, ms, seen, 0)
+		}
+	}
+	r := ms.writes || ms.opaque
+	if w.mayWrite == nil {
+		w.mayWrite = map[*ssa.Function]bool{}
+	}
+	w.mayWrite[fn] = r
+	return r
+}
+
+// havocGhost forgets the ghost byte log of the io.Writer.
+func (c *Ctx) havocGhost(st *State) {
+	g := c.ghostLog(st)
+	st.ghost["wlog"] = c.appendedLog(st, g)
+}
+
+// appendedLog: the log of an io.Writer is append-only, so whatever happened
+// the bytes already written are still there and the length did not shrink;
+// everything after the old length is unknown.
+func (c *Ctx) appendedLog(st *State, g *Val) *Val {
+	nl := Fresh("wlen", BV(64))
+	c.assume(st.pc, And(SLe(g.L[1], nl), SLe(nl, Const(64, 1<<50))))
+	fr := Fresh("wlog", g.L[0].S)
+	i := BoundVar("i", BV(64))
+	na := Lambda(i, Ite(ULt(i, g.L[1]), Select(g.L[0], i), Select(fr, i)))
+	return &Val{Typ: g.Typ, L: []*Term{na, nl}}
 }
 
 type modTarget struct {
@@ -1110,6 +1176,27 @@ func (w *World) verifyFunctionMode(fc *FuncContract, splitVal *uint64, tag strin
 		cond := c.evalClause(post, en)
 		c.obligeCase(out, "ensures", en.Text, True, cond)
 	}
+	// vacuity probes: the hypothesis of every conditional postcondition must
+	// be reachable at the function's exit (expected answer: sat). An exit
+	// made infeasible by a contradictory assumption would otherwise "prove"
+	// every such postcondition.
+	seenAnte := map[string]bool{}
+	for _, en := range fc.Ensures {
+		x := en.E
+		for x.Kind == "paren" {
+			x = x.X
+		}
+		if x.Kind != "bin" || x.Op != "==>" || len(fc.Cases) > 0 {
+			continue
+		}
+		txt := anteText(en.Text)
+		if seenAnte[txt] {
+			continue
+		}
+		seenAnte[txt] = true
+		ante := post.evalBool(x.X)
+		c.obligeCase(out, "vacuity", "reachable:"+txt, True, Not(ante))
+	}
 	for _, rc := range fc.Resets {
 		c.checkReset(post, out, rc)
 	}
@@ -1117,6 +1204,23 @@ func (w *World) verifyFunctionMode(fc *FuncContract, splitVal *uint64, tag strin
 		c.frameCheck(fc, fn, env, out)
 	}
 	return
+}
+
+// anteText: the text before the first top-level "==>" of a clause.
+func anteText(s string) string {
+	depth := 0
+	for i := 0; i+2 < len(s); i++ {
+		switch s[i] {
+		case '(', '[':
+			depth++
+		case ')', ']':
+			depth--
+		}
+		if depth == 0 && s[i] == '=' && s[i+1] == '=' && s[i+2] == '>' && (i == 0 || s[i-1] != '<') {
+			return strings.TrimSpace(s[:i])
+		}
+	}
+	return s
 }
 
 // frameCheck: everything allocated before the call and not named in
